@@ -10,6 +10,7 @@ import (
 	"github.com/aperturerobotics/bifrost/link"
 	"github.com/aperturerobotics/bifrost/peer"
 	"github.com/aperturerobotics/bifrost/transport"
+	"github.com/pkg/errors"
 	"github.com/quic-go/quic-go"
 	"github.com/sirupsen/logrus"
 )
@@ -163,6 +164,17 @@ func (t *Transport) DialPeer(ctx context.Context, peerID peer.ID, as string) (li
 	lnk, err := dl.result.Await(ctx)
 	if err != nil {
 		return nil, false, err
+	}
+
+	// The dial does not constrain the remote identity: check that the peer that
+	// answered at the address is the one we were asked to dial.
+	if lnk != nil && len(peerID) != 0 && lnk.GetRemotePeer() != peerID {
+		return nil, false, errors.Errorf(
+			"dialed %s expecting peer %s but %s answered",
+			as,
+			peerID.String(),
+			lnk.GetRemotePeer().String(),
+		)
 	}
 
 	return lnk, false, err
